@@ -339,6 +339,35 @@ func runC08(c *Ctx) {
 		r.Und("C08.names", "instance-floor", "", "os.Remove / os.Rename sites not found")
 	}
 	c.ruleRenameTarget("C08.names")
+	// pruning cannot tell the active file from a rotated one (with timestamped names both match
+	// <base>-<digits><ext>): it runs only inside a rotation, after the handle was closed and
+	// before the next file is opened — never behind an open(), where the file being written
+	// counts against MaxFiles and can be the one that is removed
+	if pf := c.Fn("C08.names", PkgRoot, "FileSink", "pruneFiles"); pf != nil {
+		nCallers := 0
+		for _, f := range p.FuncsIn(PkgRoot) {
+			for _, ci := range callsTo(f, func(n string, cc *ssa.CallCommon) bool { return cc.StaticCallee() == pf }) {
+				nCallers++
+				opens := callsTo(f, func(n string, cc *ssa.CallCommon) bool { return n == "(*eventlogger.FileSink).open" })
+				closes := callsTo(f, func(n string, cc *ssa.CallCommon) bool { return n == "(*os.File).Close" })
+				okState := f.Name() == "rotate" && len(closes) > 0
+				for _, cl := range closes {
+					if !dominatesInstr(cl, ci) {
+						okState = false
+					}
+				}
+				for _, op := range opens {
+					if dominatesInstr(op, ci) || !dominatesInstr(ci, op) {
+						okState = false
+					}
+				}
+				r.Check(okState, "C08.names", p.ShortFn(f)+"->pruneFiles:handle-closed", p.InstrPos(ci), "pruning runs in rotate, after Close and before open: the active file is not among the candidates", "pruneFiles is called where a file may be open (outside rotate, or behind open()): with timestamped names the file being written matches the rotated-file pattern, takes one of the MaxFiles slots and can itself be removed — events acknowledged afterwards are in no file")
+			}
+		}
+		if nCallers == 0 {
+			r.Und("C08.names", "pruneFiles:callers", "", "no caller of pruneFiles found")
+		}
+	}
 	// the candidates come from the sink's own directory: a listing of fs.Path (the names are
 	// then filtered by C15.prune own-names), or a glob Join(Path, Sprintf(fileNamePattern(), "*"))
 	if pf := c.Fn("C08.names", PkgRoot, "FileSink", "pruneFiles"); pf != nil {
@@ -975,6 +1004,7 @@ func runC15(c *Ctx) {
 	c.ruleNamePattern()
 	c.ruleRotatedName()
 	// --- C15.trigger
+	c.ruleRotateEnabledAgrees("C15.trigger")
 	if fn := c.Fn("C15.trigger", PkgRoot, "FileSink", "rotate"); fn != nil {
 		paths := c.enum("C15.trigger", fn, PathOpts{})
 		isB := func(t *Term) bool { return t.Is("Field", "BytesWritten") && t.Args[0].IsParam("0:fs") }
@@ -1346,6 +1376,41 @@ func runC15(c *Ctx) {
 									}
 								}
 							}
+						}
+					}
+				}
+				// candidates taken from a directory listing are files: a dominating test inside the loop
+				// excludes directories (an empty directory with such a name would be removed, a non-empty
+				// one makes every prune fail)
+				if ia, ok := stripConv(rm[0].Common().Args[0]).(*ssa.UnOp); ok {
+					if idx, ok := ia.X.(*ssa.IndexAddr); ok {
+						var elems, leaves []ssa.Value
+						var apps []*ssa.Call
+						sliceOrigins(idx.X, map[ssa.Value]bool{}, &elems, &apps, &leaves)
+						fromListing := false
+						for _, e := range elems {
+							if listingName(tb.Of(e)) != nil {
+								fromListing = true
+							}
+						}
+						if fromListing {
+							okFile := false
+							for _, ap := range apps {
+								for d := ap.Block(); d != nil; d = d.Idom() {
+									cond, ts, fsucc := condOf(d)
+									if cond == nil {
+										continue
+									}
+									ct := tb.Of(cond).String()
+									if strings.Contains(ct, "os.DirEntry.IsDir") && edgeDominates(d, fsucc, ap.Block()) {
+										okFile = true
+									}
+									if strings.Contains(ct, "IsRegular") && edgeDominates(d, ts, ap.Block()) {
+										okFile = true
+									}
+								}
+							}
+							r.Check(okFile, "C15.prune", "pruneFiles:files-only", p.InstrPos(rm[0]), "a directory entry becomes a candidate only after it was found not to be a directory", "every directory entry with a rotated file's name is a removal candidate, directories included: an empty directory called <base>-<digits><ext> is removed although it is none of the sink's files, and a non-empty one makes every rotation fail in pruning")
 						}
 					}
 				}
